@@ -72,12 +72,26 @@ lit_member = st.one_of(
     st.from_regex(r"[a-z]{1,4}-[a-z0-9]{1,3}", fullmatch=True),
     st.from_regex(r"[A-Z][a-zA-Z0-9]{1,5}", fullmatch=True),
 )
-plain_str = st.from_regex(r"[A-Za-z][A-Za-z0-9_/~-]{0,10}", fullmatch=True).filter(lambda s: s not in ("None", "True", "False"))
+# plain string defaults: words, also with inner blanks and the punctuation real defaults carry ("Hello!", "R&D", "a|b",
+# "$HOME", "x^2", "*", "@me"); never empty, never with a dot / quote / back-tick / colon (finding P12)
+plain_str = st.one_of(
+    st.from_regex(r"[A-Za-z][A-Za-z0-9_/~-]{0,10}", fullmatch=True),
+    st.from_regex(r"[A-Za-z][A-Za-z0-9_/~-]{0,10}", fullmatch=True),
+    st.from_regex(r"[A-Za-z$@*][A-Za-z0-9_/~ !*&|$@^+=-]{0,8}[A-Za-z0-9!*]", fullmatch=True),
+).filter(lambda s: s not in ("None", "True", "False") and "  " not in s)
 ints = st.one_of(st.integers(-(10**6), 10**6), st.sampled_from([0, 1, -1, 7, -5, -100, -101, 255, 10**9, -(10**12)]))
 floats = st.one_of(
     st.floats(allow_nan=False, allow_infinity=False, width=32).map(lambda f: float(repr(round(f, 4)))),
     st.sampled_from([0.5, -0.5, 1e-07, 5.0, -2.25, 1e20, -3e-05, 0.0, 100.0]),
 )
+
+_PLAIN_RE = __import__("re").compile(r"^(?:[A-Za-z][A-Za-z0-9_/~-]{0,10}|[A-Za-z$@*][A-Za-z0-9_/~ !*&|$@^+=-]{0,8}[A-Za-z0-9!*])$")
+
+
+def is_plain_str(s):
+    """the strict domain of string defaults (what `plain_str` generates)"""
+    return bool(_PLAIN_RE.match(s)) and s not in ("None", "True", "False") and "  " not in s
+
 
 KINDS = {
     "docstring": ["int", "float", "str", "bool", "optint", "optstr", "optbool", "optfloat", "literal", "list", "union", "dotted"],
